@@ -461,6 +461,15 @@ class Handles:
             cut = [short(x[1]) if isinstance(x[1], str) else "?" for x in walk(content or ()) if x[0] == "call" and isinstance(x[1], str) and
                    short(x[1]) in ("Index::index", "IndexMut::index_mut", "slice::split_at", "Vec::truncate", "Vec::split_off", "Vec::drain",
                                    "slice::get", "Iterator::take", "slice::first", "slice::chunks", "Read::take", "Cursor::position")]
+            # ... nor is the buffer (or the copy of it that gets published) shortened in place on the way
+            for cb_ in self.inter.code_bodies(target):
+                trc_ = get_tracer(facts, cb_)
+                for s_ in self.inter.sites(cb_):
+                    if s_.short in ("Vec::truncate", "Vec::drain", "Vec::clear", "Vec::split_off", "Vec::resize", "Vec::pop", "Vec::remove",
+                                    "Vec::retain", "Vec::set_len", "Vec::swap_remove", "Vec::dedup", "Vec::resize_with") and s_.args:
+                        recv_ = norm(trc_.operand(s_.args[0]))
+                        if any(x[0] == "field" and x[2] == cur_field for x in walk(recv_)):
+                            cut.append(s_.short)
             n += 1
             rep.ob(rule_pub, target.id, "the whole buffer is published (no slice / truncation)", okc and not cut, "" if not cut else
                    "the published bytes are a part of the writer's buffer (%s): data behind the cursor, or beyond the cut, is lost" % cut[0], t.line)
